@@ -129,6 +129,11 @@ type outcome struct {
 }
 
 func runOne(c Case, canonical bool) (outcome, map[string][]byte, map[string][]byte) {
+	return runLayout(c, canonical, false)
+}
+
+// runLayout: ownWriter=true lets gopar's own Create write the set (only meaningful for contiguous exponents 0..n-1).
+func runLayout(c Case, canonical, ownWriter bool) (outcome, map[string][]byte, map[string][]byte) {
 	var out outcome
 	root := run.Scratch("c06")
 	defer os.RemoveAll(root)
@@ -141,7 +146,18 @@ func runOne(c Case, canonical bool) (outcome, map[string][]byte, map[string][]by
 	}
 	fsx.WriteTree(dir, orig)
 	set := par2ref.NewSet(c.Slice, orig)
-	layout(dir, c, set, canonical)
+	if ownWriter {
+		var paths []string
+		for _, n := range names {
+			paths = append(paths, filepath.Join(dir, n))
+		}
+		if err := par2.Create(filepath.Join(dir, c.Base+".par2"), paths, par2.CreateOptions{SliceByteCount: c.Slice, NumParityShards: len(allExps(c)), NumGoroutines: 1}); err != nil {
+			out.pan = "gopar Create failed: " + err.Error()
+			return out, orig, nil
+		}
+	} else {
+		layout(dir, c, set, canonical)
+	}
 	state := map[string][]byte{}
 	for n, d := range orig {
 		state[n] = d
@@ -201,7 +217,10 @@ func allExps(c Case) []int {
 
 func hasGlobMeta(s string) bool { return strings.ContainsAny(s, "[]*?\\") }
 
+var ownLeg bool
+
 func check(c Case) (msg, key string, nontriv bool) {
+	ownLeg = false
 	scr, orig, state := runOne(c, false)
 	// D8 signature: glob metacharacters in the base name (or a directory) make the volume search fail
 	if hasGlobMeta(c.Base) {
@@ -238,6 +257,31 @@ func check(c Case) (msg, key string, nontriv bool) {
 	for n := range orig {
 		if !bytes.Equal(scr.final[n], can.final[n]) {
 			return fmt.Sprintf("final bytes of %q differ between layouts", n), key, false
+		}
+	}
+	// third leg: for contiguous exponents gopar's own output for the same logical set must behave identically
+	contiguous := true
+	for i, e := range exps {
+		if e != i {
+			contiguous = false
+		}
+	}
+	if contiguous && len(exps) > 0 {
+		ownLeg = true
+		own, _, _ := runLayout(c, false, true)
+		if own.pan != "" {
+			return "own-writer leg: " + own.pan, key, false
+		}
+		if own.verifyErr == "" && (own.counts.UsableDataShardCount != scr.counts.UsableDataShardCount || own.counts.UsableParityShardCount != scr.counts.UsableParityShardCount || own.counts.RepairNeeded() != scr.counts.RepairNeeded()) {
+			return fmt.Sprintf("Verify differs between the reference-written set %+v and gopar's own output %+v", scr.counts, own.counts), key, false
+		}
+		if (own.repairErr == "") != (scr.repairErr == "") {
+			return fmt.Sprintf("Repair outcome differs: reference-written err=%q, gopar-written err=%q", scr.repairErr, own.repairErr), key, false
+		}
+		for n := range orig {
+			if !bytes.Equal(own.final[n], scr.final[n]) {
+				return fmt.Sprintf("final bytes of %q differ between the reference-written set and gopar's own output", n), key, false
+			}
 		}
 	}
 	// model
@@ -327,6 +371,28 @@ func gen(t *rapid.T) Case {
 		}
 		c.Vols = append(c.Vols, Vol{Suffix: sfx[i], Exps: exps})
 	}
+	if rapid.IntRange(0, 3).Draw(t, "contiguous") == 0 {
+		// blocks 0..n-1 spread over the volume files in a generated order: comparable with gopar's own Create output
+		n := rapid.IntRange(1, 9).Draw(t, "ncontig")
+		order := make([]int, n)
+		for i := range order {
+			order[i] = i
+		}
+		order = rapid.Permutation(order).Draw(t, "order")
+		for i := range c.Vols {
+			c.Vols[i].Exps = nil
+		}
+		for i, e := range order {
+			c.Vols[i%len(c.Vols)].Exps = append(c.Vols[i%len(c.Vols)].Exps, e)
+		}
+		var keep []Vol
+		for _, v := range c.Vols {
+			if len(v.Exps) > 0 {
+				keep = append(keep, v)
+			}
+		}
+		c.Vols = keep
+	}
 	c.Scramble = rapid.Uint64Range(0, 1<<30).Draw(t, "scramble")
 	c.Foreign = rapid.Bool().Draw(t, "foreign")
 	c.Unknown = rapid.Bool().Draw(t, "unknown")
@@ -355,6 +421,9 @@ func TestCheck(t *testing.T) {
 			rec.Class("unknown-type-packets")
 		}
 		msg, key, nt := check(c)
+		if ownLeg {
+			rec.Class("compared-with-gopar-own-output")
+		}
 		if msg != "" {
 			return rec.Fail("layout", c, key, msg) == ""
 		}
